@@ -256,6 +256,7 @@ def run(c):
         again = replay(c, binp, obj)
         if not [x for x in again['violations'] if x['signature'] == v['signature']]:
             c.unreproduced('violation %s (%s) not reproduced on a second run: %s' % (v['signature'], leg['name'], [x['signature'] for x in again['violations']]))
+            continue
         c.report(v['signature'], '[%s] %s' % (leg['name'], v['detail']), obj)
     if hits:
         c.log('%d violating behaviours, %d distinct signatures (each re-executed before it was reported): %s' % (stats.get('violating_behaviours', 0), len(seen), sorted(seen)))
